@@ -18,6 +18,22 @@ package main
 //
 // Filters whose result legitimately depends on Go's map iteration order (see main.go) are not
 // generated here, and every expected filter result is computed twice on two fresh copies.
+//
+// Which filter reaches which plugin is decided by the batching key of execPlugins
+// (createPluginConfigKeyForImage: sorted types, sorted exclude_types, strategy, remote): the first
+// plugin of a batch lends its filter to all the others.  The first cases of every run are therefore
+// STRATIFIED over plugin sets whose keys are close (genStrata): the same names split differently
+// between `types` and `exclude_types` ({types:[X]} / {exclude_types:[X]}; {types:[A,B]} /
+// {types:[A], exclude_types:[B]} / {types:[B], exclude_types:[A]} / {exclude_types:[A,B]}), equal
+// filters spelt differently (order, duplicates), equal filters with different strategies, a
+// nested name next to its parent, no filter next to a filter; one case in four also applies an
+// INPUT-level types / exclude_types filter first (as bufctl does for `inputs: - types:`), so the
+// plugin-level filters run on an already filtered image.
+//
+// Correspondence: one protocol line `g` per run.  The harness names, for every plugin, the class of
+// its OWN filter result (plugins whose freshly filtered images are equal share a class) and observes
+// the class of the image that actually reached the plugin; the Lean model (BufModel.GenBatch: key,
+// rep) must predict the observed classes from the configured names alone.
 
 import (
 	"bytes"
@@ -148,6 +164,13 @@ func (p genPlugin) expectedRequests(base bufimage.Image, param string) ([]*plugi
 	if err != nil {
 		return nil, err
 	}
+	return p.requestsFor(filtered, param)
+}
+
+// requestsFor: the requests of this plugin (its strategy, include_imports, parameter) for an already
+// filtered image.
+func (p genPlugin) requestsFor(filtered bufimage.Image, param string) ([]*pluginpb.CodeGeneratorRequest, error) {
+	var err error
 	images := []bufimage.Image{filtered}
 	if !p.StrategyAll {
 		images, err = bufimage.ImageByDir(filtered)
@@ -214,8 +237,18 @@ func compareRequests(want, got []*pluginpb.CodeGeneratorRequest) string {
 	return ""
 }
 
-// genPluginSpecs draws 2-4 plugin configurations for one image.
-func genPluginSpecs(r *hx.Rand, base bufimage.Image, pre *prepared) []genPlugin {
+// genStrata: the shapes of plugin sets whose batching keys are close.
+var genStrata = []string{
+	"types-X|exclude-X", "types-A,B|types-A-exclude-B", "A-minus-B|B-minus-A|types-A,B", "all-four-splits-of-A,B",
+	"equal-up-to-order-and-duplicates", "same-filter-different-strategies", "filter|none|opposite-filter", "nested-name-and-parent",
+	// the unnamed package "" is a name like any other for FilterImage (files without a package
+	// statement), but the batching key renders [""] like []: recorded as-coded defect, judged by the
+	// oracle only (class generate-batch-key-ambiguous-name), no protocol line
+	"unnamed-package|none",
+}
+
+// genPluginSpecs draws 2-4 plugin configurations for one image; stratum >= 0 selects a shape of genStrata.
+func genPluginSpecs(r *hx.Rand, base bufimage.Image, pre *prepared, stratum int) []genPlugin {
 	orig := locate(base)
 	byFile := map[string][]string{}
 	var files []string
@@ -272,6 +305,70 @@ func genPluginSpecs(r *hx.Rand, base bufimage.Image, pre *prepared) []genPlugin 
 		}
 		b, err := p.filterFresh(base)
 		return err == nil && sameImage(a, b) == ""
+	}
+	if stratum >= 0 {
+		all := map[string]bool{}
+		var flat []string
+		for _, f := range files {
+			for _, n := range byFile[f] {
+				all[n] = true
+				flat = append(flat, n)
+			}
+		}
+		for try := 0; try < 30; try++ {
+			sa := r.Chance(2, 3)
+			mk := func(types, excl []string, strategyAll bool) genPlugin {
+				return genPlugin{Types: types, ExcludeTypes: excl, StrategyAll: strategyAll, Imports: r.Bool()}
+			}
+			x, a, b := pick(), pick(), pick()
+			if a == b || strings.HasPrefix(a, b+".") || strings.HasPrefix(b, a+".") {
+				continue
+			}
+			var ps []genPlugin
+			switch genStrata[stratum] {
+			case "types-X|exclude-X":
+				ps = []genPlugin{mk([]string{x}, nil, sa), mk(nil, []string{x}, sa)}
+			case "types-A,B|types-A-exclude-B":
+				ps = []genPlugin{mk([]string{a, b}, nil, sa), mk([]string{a}, []string{b}, sa)}
+			case "A-minus-B|B-minus-A|types-A,B":
+				ps = []genPlugin{mk([]string{a}, []string{b}, sa), mk([]string{b}, []string{a}, sa), mk([]string{a, b}, nil, sa)}
+			case "all-four-splits-of-A,B":
+				ps = []genPlugin{mk(nil, []string{a, b}, sa), mk([]string{a}, []string{b}, sa), mk([]string{a, b}, nil, sa), mk([]string{b}, []string{a}, sa)}
+			case "equal-up-to-order-and-duplicates":
+				ps = []genPlugin{mk([]string{a, b}, nil, sa), mk([]string{b, a}, nil, sa), mk([]string{a, b, a}, nil, sa), mk(nil, []string{b, a}, sa)}
+			case "same-filter-different-strategies":
+				ps = []genPlugin{mk([]string{x}, nil, true), mk([]string{x}, nil, false), mk(nil, []string{x}, false), mk(nil, []string{x}, true)}
+			case "filter|none|opposite-filter":
+				ps = []genPlugin{mk([]string{x}, nil, sa), mk(nil, nil, sa), mk(nil, []string{x}, sa)}
+			case "unnamed-package|none":
+				ps = []genPlugin{mk([]string{""}, nil, sa), mk(nil, nil, sa), mk(nil, []string{""}, sa)}
+				for _, p := range ps {
+					if !usable(p) {
+						return nil // no package-less target file with types here
+					}
+				}
+			case "nested-name-and-parent":
+				var nested []string
+				for _, n := range flat {
+					if all[parentName(n)] {
+						nested = append(nested, n)
+					}
+				}
+				if len(nested) == 0 {
+					return nil
+				}
+				n := hx.Pick(r, nested)
+				ps = []genPlugin{mk([]string{n}, nil, sa), mk([]string{parentName(n)}, []string{n}, sa), mk([]string{parentName(n), n}, nil, sa), mk(nil, []string{n}, sa)}
+			}
+			ok := true
+			for _, p := range ps {
+				ok = ok && usable(p)
+			}
+			if ok {
+				return ps
+			}
+		}
+		return nil
 	}
 	np := 2 + r.Intn(3)
 	kinds := []string{"none", "types", "exclude_types", "both"}
@@ -382,16 +479,67 @@ func sectionGenerate(run *hx.Run, r *hx.Rand) {
 			run.Count("G:skipped(addExtensions map-order dependent workspace)")
 			continue
 		}
-		res := pre.resolvedInput(base)
-		if res.err != nil {
+		// the first cases walk through the strata of close batching keys, later ones hit one in three
+		// (chosen by the case index alone, so that --only replays the same case)
+		stratum := -1
+		if ci < 2*len(genStrata) {
+			stratum = ci % len(genStrata)
+		} else if cr.Chance(1, 3) {
+			stratum = cr.Intn(len(genStrata))
+		}
+		// requests are decoded with the types of the UNFILTERED workspace: an input-level filter that
+		// excludes (part of) an option's value type leaves the values behind, and compared as unknown
+		// bytes their map entries would be in marshalling (= random) order
+		resFull := pre.resolvedInput(base)
+		if resFull.err != nil {
 			continue
 		}
-		specs := genPluginSpecs(cr, base, pre)
+		// one case in four: an input-level filter first (bufctl: FilterImage(..., WithMutateInPlace()))
+		var inputFilter *genPlugin
+		if cr.Chance(1, 4) {
+			if ps := genPluginSpecs(cr, base, pre, -1); ps != nil {
+				for _, p := range ps {
+					if p.kind() != "none" {
+						p := p
+						inputFilter = &p
+						break
+					}
+				}
+			}
+			if inputFilter != nil {
+				clone, err := bufimage.CloneImage(base)
+				if err != nil {
+					panic(err)
+				}
+				filtered, err := bufimageutil.FilterImage(clone, bufimageutil.WithIncludeTypes(inputFilter.Types...), bufimageutil.WithExcludeTypes(inputFilter.ExcludeTypes...), bufimageutil.WithMutateInPlace())
+				if err != nil {
+					continue // cannot happen: usable() ran the same filter
+				}
+				base = filtered
+				pre = prepare(base)
+				if !extensionsOrderIndependent(base, pre) {
+					continue
+				}
+			}
+		}
+		if res := pre.resolvedInput(base); res.err != nil {
+			continue
+		}
+		res := resFull
+		specs := genPluginSpecs(cr, base, pre, stratum)
 		if specs == nil {
 			run.Count("G:skipped(no two usable different filters)")
 			continue
 		}
 		done++
+		if stratum >= 0 {
+			run.Count("G:stratum:" + genStrata[stratum])
+		} else {
+			run.Count("G:stratum:none(random plugin set)")
+		}
+		if inputFilter != nil {
+			run.Count("G:input-level-filter:" + inputFilter.kind())
+		}
 		run.Count(fmt.Sprintf("G:plugins:%d", len(specs)))
 		for _, o := range orders(len(specs)) {
 			ordered := make([]genPlugin, len(o))
@@ -399,13 +547,16 @@ func sectionGenerate(run *hx.Run, r *hx.Rand) {
 				ordered[i] = specs[j]
 			}
 			replay := fmt.Sprintf("build/c12 --seed %d --tier %s --out /tmp/c12-replay --only %d   # generate run, plugin order %v", run.Seed, run.Tier, idx, o)
-			runGenerate(run, exe, scratch, base, res, ws, ordered, replay)
+			runGenerate(run, exe, scratch, base, res, ws, inputFilter, ordered, replay)
 		}
 	}
 }
 
-func runGenerate(run *hx.Run, exe, scratch string, base bufimage.Image, res *resolvedImage, ws *workspace, specs []genPlugin, replay string) {
+func runGenerate(run *hx.Run, exe, scratch string, base bufimage.Image, res *resolvedImage, ws *workspace, inputFilter *genPlugin, specs []genPlugin, replay string) {
 	in := map[string]any{"target_module": ws.sources[0], "non_target_module": ws.sources[1], "plugins": specs}
+	if inputFilter != nil {
+		in["input_types"], in["input_exclude_types"] = inputFilter.Types, inputFilter.ExcludeTypes
+	}
 	fail := func(class, what string) {
 		recordFailure(run, hx.OracleFailure{Class: class, What: what, Input: in, Replay: replay})
 	}
@@ -434,7 +585,7 @@ func runGenerate(run *hx.Run, exe, scratch string, base bufimage.Image, res *res
 			strategy = bufconfig.GenerateStrategyAll
 		}
 		pc, err := bufconfig.NewLocalGeneratePluginConfig(fmt.Sprintf("verif%d", i), filepath.Join(scratch, fmt.Sprintf("out%d", i)),
-			[]string{recDirs[i]}, p.Imports, false, p.Types, p.ExcludeTypes, &strategy, []string{exe, "--as-plugin"})
+			[]string{recDirs[i]}, p.Imports, false, append([]string(nil), p.Types...), append([]string(nil), p.ExcludeTypes...), &strategy, []string{exe, "--as-plugin"})
 		if err != nil {
 			panic(err)
 		}
@@ -467,10 +618,35 @@ func runGenerate(run *hx.Run, exe, scratch string, base bufimage.Image, res *res
 		fail("generate-fails-with-valid-filters", fmt.Sprintf("every plugin's filter succeeds on a fresh copy of the image, yet Generate fails: %v", gerr))
 		return
 	}
+	// class of every plugin's OWN filter result: plugins whose freshly filtered images are equal share one
+	filtered := make([]bufimage.Image, len(specs))
+	cls := make([]int, len(specs))
 	for i, p := range specs {
-		want, err := p.expectedRequests(base, recDirs[i])
+		var err error
+		if filtered[i], err = p.filterFresh(base); err != nil {
+			return // cannot happen: usable() ran the same filter
+		}
+		cls[i] = i
+		for j := 0; j < i; j++ {
+			if sameImage(filtered[j], filtered[i]) == "" {
+				cls[i] = cls[j]
+				break
+			}
+		}
+	}
+	// names that fmt's %v renders ambiguously (the empty name, a name with a blank)
+	ambiguousNames := false
+	for _, p := range specs {
+		for _, n := range append(append([]string(nil), p.Types...), p.ExcludeTypes...) {
+			ambiguousNames = ambiguousNames || n == "" || strings.Contains(n, " ")
+		}
+	}
+	observed := make([]string, len(specs))
+	for i, p := range specs {
+		observed[i] = "?"
+		want, err := p.requestsFor(filtered[i], recDirs[i])
 		if err != nil {
-			continue // cannot happen: usable() ran the same filter
+			continue
 		}
 		want, err = normalise(want, res)
 		if err != nil {
@@ -491,7 +667,48 @@ func runGenerate(run *hx.Run, exe, scratch string, base bufimage.Image, res *res
 		sort.SliceStable(got, func(a, b int) bool { return reqKey(got[a]) < reqKey(got[b]) })
 		run.CountN("G:requests-recorded", len(got))
 		if why := compareRequests(want, got); why != "" {
-			fail("generate-plugin-request-not-own-filter", fmt.Sprintf("plugin %d (types=%v exclude_types=%v) did not receive the image filtered by its own filter only: %s", i, p.Types, p.ExcludeTypes, why))
+			class := "generate-plugin-request-not-own-filter"
+			if ambiguousNames {
+				class = "generate-batch-key-ambiguous-name"
+			}
+			fail(class, fmt.Sprintf("plugin %d (types=%v exclude_types=%v) did not receive the image filtered by its own filter only: %s", i, p.Types, p.ExcludeTypes, why))
+			// whose filter did reach it?
+			for j := range specs {
+				if cls[j] != j || j == cls[i] {
+					continue
+				}
+				other, err := p.requestsFor(filtered[j], recDirs[i])
+				if err != nil {
+					continue
+				}
+				if other, err = normalise(other, res); err == nil && compareRequests(other, got) == "" {
+					observed[i] = fmt.Sprint(j)
+					break
+				}
+			}
+		} else {
+			observed[i] = fmt.Sprint(cls[i])
 		}
 	}
+	// correspondence with the batching model: which filter class reaches which plugin
+	encList := func(xs []string) string {
+		ys := make([]string, len(xs))
+		for i, x := range xs {
+			ys[i] = hx.Enc(x)
+		}
+		return strings.Join(ys, ",")
+	}
+	fields := make([]string, len(specs))
+	for i, p := range specs {
+		st := "d"
+		if p.StrategyAll {
+			st = "a"
+		}
+		fields[i] = fmt.Sprintf("%s|%s|%s|%d", encList(p.Types), encList(p.ExcludeTypes), st, cls[i])
+	}
+	if ambiguousNames {
+		run.Count("G:runs-with-ambiguously-rendered-names(oracle only)")
+		return
+	}
+	run.Case("g\t"+strings.Join(fields, ";"), strings.Join(observed, ","), true)
 }
